@@ -1,18 +1,12 @@
 // =============================================================================
 // TRUSTED PRELUDE (R8, pool unit, checkout side): `Pool` stands for
-// { inner: Arc<Mutex<PoolInner>>, keys: Arc<Mutex<TokenMap<K>>> }; the connector / checkout
-// types are opaque.  A-class functions get their assumed summaries here.
+// { inner: Arc<Mutex<PoolInner>>, keys: Arc<Mutex<TokenMap<K>>> }.  A-class functions get their assumed
+// summaries here.  The checkout types are NOT modelled here any more: unit `pool` extracts the real `Checkout` /
+// `Waiting` / `InnerCheckoutConnecting`, takes `Transport` / `Protocol` / `Connector` from prelude/checkout.rs (the
+// model unit `checkout` is proved against) and IMPORTS the contract of `Checkout::new` from unit `checkout`.
 // =============================================================================
-pub trait Transport { type IO; }
 /// stand-in for `pool::Key` (Eq + Hash + Debug + TryFrom<&Parts>): the unit never looks inside a key
 pub trait Key: Sized {}
-pub trait Protocol<IO, B> { type Connection; }
-
-#[verifier::external_body]
-#[verifier::reject_recursive_types(T)]
-#[verifier::reject_recursive_types(P)]
-#[verifier::reject_recursive_types(B)]
-pub struct Connector<T, P, B> { _p: PhantomData<(T, P, B)> }
 
 /// A: `TokenMap::insert` (closure capturing `&mut self.counter`): the token of a key is a function of the
 /// key, never zero.  Injectivity (distinct keys get distinct tokens until usize::MAX keys were seen) is the
@@ -61,34 +55,5 @@ impl<C, B, K> Pool<C, B, K> where C: PoolableConnection<B>, B: Send + 'static {
     #[verifier::external_body]
     pub fn as_ref(&self) -> (r: PoolRef<C, B>)
         ensures !r.is_none_ref()
-    { unimplemented!() }
-}
-
-/// A: `Checkout` (pin-projected state machine, pool/checkout.rs).  `Checkout::new` is assumed to store what
-/// it is given: the summary below is read off its three-way `if`.
-#[verifier::external_body]
-#[verifier::reject_recursive_types(T)]
-#[verifier::reject_recursive_types(P)]
-#[verifier::reject_recursive_types(B)]
-pub struct Checkout<T, P, B> where T: Transport, P: Protocol<T::IO, B>, P::Connection: PoolableConnection<B>, B: Send + 'static {
-    _p: PhantomData<(T, P, B)>,
-}
-impl<T, P, B> Checkout<T, P, B> where T: Transport, P: Protocol<T::IO, B>, P::Connection: PoolableConnection<B>, B: Send + 'static {
-    pub uninterp spec fn token(&self) -> Token;
-    /// the checkout holds a connector of its own: it will dial
-    pub uninterp spec fn will_dial(&self) -> bool;
-    /// the checkout already holds a pooled connection
-    pub uninterp spec fn holds(&self) -> Option<P::Connection>;
-    /// the receiving end it listens on
-    pub uninterp spec fn waits_on(&self) -> int;
-
-    #[verifier::external_body]
-    pub fn new(token: Token, pool: PoolRef<P::Connection, B>, waiter: Receiver<Pooled<P::Connection, B>>,
-               connect: Option<Connector<T, P, B>>, connection: Option<P::Connection>, config: &Config) -> (r: Self)
-        ensures
-            r.token() == token,
-            r.holds() == connection,
-            r.will_dial() == (connection is None && connect is Some),
-            r.waits_on() == waiter.id(),
     { unimplemented!() }
 }
